@@ -570,7 +570,7 @@ pub fn generate(sink: &mut Sink, rng: &mut Rng, n: u64) {
         // chrono cannot read back a negative `%s` nor an unpadded/5-digit year glued to other digits:
         // outside the domain of its round-trip law (not vrl code), so not generated
         if fmt.contains("%s") && t.timestamp() < 0 {
-            t = DateTime::from_timestamp(-t.timestamp(), t.timestamp_subsec_nanos()).unwrap();
+            t = DateTime::from_timestamp((-t.timestamp()).min(8_000_000_000_000), t.timestamp_subsec_nanos()).unwrap();
         }
         if fmt.starts_with("%Y%m") {
             // years 1000..=9999
